@@ -2,11 +2,11 @@ SPECIFICATION Spec
 CONSTANTS
   EFlows = {"A"}
   NFlows = {"C"}
-  MaxEvents = 5
+  MaxEvents = 4
   MaxConns = 4
   MaxT6 = 1
-  MaxPk = 5
-  RRs = {"cpr0"}
-  ScopeSensitive = FALSE
-  Faults = {"wfail", "rexit", "tick"}
+  MaxPk = 4
+  RRs = {"cpr0", "cpr1", "g2"}
+  ScopeSensitive = TRUE
+  Faults = {"wfail"}
 INVARIANTS NoDup Conservation HeldAreInitials BatchOrdered CompleteAtEnd NameRoutes OneTransport Emit
